@@ -423,7 +423,9 @@ class Executor(ExprMixin, CallMixin, LoopMixin, CompMixin, SqliteMixin, BuiltinM
     def unpack(self, v, n, st):
         if v.ty.name == "Tuple":
             if len(v.t) != n:
-                raise Unsupported("tuple arity")
+                # unpacking a sequence of another length: ValueError ("not enough / too many values to unpack")
+                st.raise_if(z3.BoolVal(True), "ValueError")
+                return [NONE_VAL] * n
             return v.t
         raise Unsupported(f"unpack {v.ty}")
 
@@ -547,7 +549,29 @@ class Executor(ExprMixin, CallMixin, LoopMixin, CompMixin, SqliteMixin, BuiltinM
         if fi.is_generator:
             rty = parse_type(c["returns"])
             st.env["__yield__"] = self.new_list(rty.args[0], st)
-        outs = self.exec_block(fi.body, st)
+        starts = [st]
+        for pname in c.get("case_split", []):
+            # proof by cases on an Optional parameter: None, or a value of the plain type (the body then sees a constant None
+            # or a plain value, so that tests like `v is not None` are decided while the code is being read)
+            nxt = []
+            for s0 in starts:
+                v = s0.env[pname]
+                if v.ty.name != "Opt":
+                    nxt.append(s0)
+                    continue
+                isn = self.is_none(v, s0)
+                a_, b_ = s0.copy(), s0.copy()
+                a_.env = dict(s0.env)
+                b_.env = dict(s0.env)
+                a_.assume(isn)
+                a_.env[pname] = NONE_VAL
+                b_.assume(z3.Not(isn))
+                b_.env[pname] = self._inner(v)
+                nxt.extend([a_, b_])
+            starts = nxt
+        outs = []
+        for s0 in starts:
+            outs.extend(self.exec_block(fi.body, s0))
         for k, g in enumerate(c.get("ghost_code", [])):
             if k not in self.ghost_hit:
                 raise Unsupported(f"ghost anchor {g.get('after') or 'yield'!r} not found in {qualname} (stale contract)")
